@@ -468,9 +468,9 @@ func FuzzC20CompactBinary(f *testing.F) {
 	}
 	f.Add("", []byte{})
 	f.Add("a", []byte{3})
-	f.Add("a", append(append([]byte{3}, bytes.Repeat([]byte{0}, 16)...), 0x01))                                  // size -1
-	f.Add("a", append(append([]byte{3}, bytes.Repeat([]byte{0}, 16)...), bytes.Repeat([]byte{0xff}, 11)...))     // overflow
-	f.Add("a", append(append([]byte{3}, bytes.Repeat([]byte{0}, 16)...), 0x80, 0x00, 0xde, 0xad))                // non-minimal varint + trailing
+	f.Add("a", append(append([]byte{3}, bytes.Repeat([]byte{0}, 16)...), 0x01))                                                         // size -1
+	f.Add("a", append(append([]byte{3}, bytes.Repeat([]byte{0}, 16)...), bytes.Repeat([]byte{0xff}, 11)...))                            // overflow
+	f.Add("a", append(append([]byte{3}, bytes.Repeat([]byte{0}, 16)...), 0x80, 0x00, 0xde, 0xad))                                       // non-minimal varint + trailing
 	f.Add("", append(append([]byte{1}, bytes.Repeat([]byte{0xff}, 32)...), 0xfe, 0xff, 0xff, 0xff, 0xff, 0xff, 0xff, 0xff, 0xff, 0x01)) // max size
 	f.Fuzz(func(t *testing.T, inst string, data []byte) {
 		ok, n := checkCompact(t, inst, data)
